@@ -490,6 +490,9 @@ def arrays(rep, R, ix, M, L):
     arms = []
     cur = fn.body
     chain = [s for s in fn.body if isinstance(s, ast.If) and "issubdtype" in u(s.test)]
+    # an up-front guard `if not np.issubdtype(...): raise` is not the dispatch
+    guards = [s for s in chain if always_raises(s.body) and not s.orelse]
+    chain = [s for s in chain if s not in guards]
     if len(chain) != 1:
         raise Inconclusive("numpy_to_blackbird: dtype dispatch not recognised")
     c = chain[0]
@@ -658,22 +661,45 @@ def c15_4(rep, ix, M):
             rep.check(w is None, R, ix.site(f, apps[0]), "a %s variable is written `%s`, a scalar declaration '<type> <name> = <%s>'" % (kind, shown, form[2:]),
                       "e.g. %r is not a scalar declaration of that type" % w, key="tdm|" + kind)
         else:
-            # header + rows
+            # header + rows: '<type> array <name> =' followed by the text of the rows (accumulated in a local by a loop, or joined in place)
             txt = " ".join(u(expr).split())
-            okh = txt == "'{} array {} ={}'.format(var_type, %s, array_string)" % k
-            rep.check(okh, R, ix.site(f, apps[0]), "an array variable is written '<type> array <name> =' followed by its rows", "got `%s`" % txt, key="tdm|array header")
-            rows = [s for s in body if isinstance(s, ast.For) and u(s.iter) == v]
-            okr = False
-            if not rows:
+            parts = norm.fmt_parts(expr) or []
+            shape_ok = len(parts) == 5 and [p_[0] for p_ in parts] == ["expr", "lit", "expr", "lit", "expr"] and u(parts[0][1]) == "var_type" and parts[1][1] == " array " \
+                and u(parts[2][1]) == k and parts[3][1] == " ="
+            rows_e = parts[4][1] if shape_ok else None
+            row_expr, row_var, rows = None, None, []
+            if isinstance(rows_e, ast.Name):
                 rows = [s for s in ast.walk(ast.Module(body=list(body), type_ignores=[])) if isinstance(s, ast.For) and u(s.iter) == v]
-            if len(rows) == 1 and len(rows[0].body) == 1 and isinstance(rows[0].body[0], ast.AugAssign):
-                r = " ".join(u(rows[0].body[0]).split())
-                rt = u(rows[0].target)
-                okr = r in ("array_string += '\\n    ' + ''.join(('{}, '.format(i) for i in %s))[:-2]" % rt, "array_string += '\\n    ' + ', '.join(('{}'.format(i) for i in %s))" % rt)
-                elem_expr = None
-                for n in ast.walk(rows[0].body[0]):
-                    if isinstance(n, ast.GeneratorExp):
-                        elem_expr = (n.elt, u(n.generators[0].target))
+                if len(rows) == 1 and len(rows[0].body) == 1 and isinstance(rows[0].body[0], ast.AugAssign) and isinstance(rows[0].body[0].op, ast.Add) and u(rows[0].body[0].target) == rows_e.id:
+                    inits = [s for s in ast.walk(ast.Module(body=list(lp.body), type_ignores=[])) if isinstance(s, ast.Assign) and u(s.targets[0]) == rows_e.id]
+                    if len(inits) == 1 and isinstance(inits[0].value, ast.Constant) and inits[0].value.value == "":
+                        row_expr, row_var = rows[0].body[0].value, u(rows[0].target)
+            elif isinstance(rows_e, ast.Call) and isinstance(rows_e.func, ast.Attribute) and rows_e.func.attr == "join" and isinstance(rows_e.func.value, ast.Constant) and rows_e.func.value.value == "" \
+                    and len(rows_e.args) == 1 and isinstance(rows_e.args[0], (ast.GeneratorExp, ast.ListComp)) and len(rows_e.args[0].generators) == 1 and u(rows_e.args[0].generators[0].iter) == v \
+                    and not rows_e.args[0].generators[0].ifs:
+                row_expr, row_var = rows_e.args[0].elt, u(rows_e.args[0].generators[0].target)
+                rows = [rows_e]
+            okh = shape_ok and row_expr is not None
+            rep.check(okh, R, ix.site(f, apps[0]), "an array variable is written '<type> array <name> =' followed by its rows", "got `%s`" % txt, key="tdm|array header")
+            okr = False
+            elem_expr = None
+            if row_expr is not None and isinstance(row_expr, ast.BinOp) and isinstance(row_expr.op, ast.Add) and isinstance(row_expr.left, ast.Constant) and row_expr.left.value == "\n    ":
+                # one row: newline + four spaces + the elements separated by ', '
+                r_ = row_expr.right
+                sliced = False
+                if isinstance(r_, ast.Subscript) and " ".join(u(r_.slice).split()) == ":-2":
+                    r_, sliced = r_.value, True
+                if isinstance(r_, ast.Call) and isinstance(r_.func, ast.Attribute) and r_.func.attr == "join" and isinstance(r_.func.value, ast.Constant) and len(r_.args) == 1 \
+                        and isinstance(r_.args[0], (ast.GeneratorExp, ast.ListComp)) and len(r_.args[0].generators) == 1 and u(r_.args[0].generators[0].iter) == row_var and not r_.args[0].generators[0].ifs:
+                    sep = r_.func.value.value
+                    g_ = r_.args[0]
+                    elem_expr = (g_.elt, u(g_.generators[0].target))
+                    etxt = norm.canon_text(g_.elt) or ""
+                    trailing = etxt.endswith(", ")
+                    okr = (sep == ", " and not sliced and not trailing) or (sep == "" and sliced and trailing)
+            if True:
+                if True:
+                    pass
                 if elem_expr is not None:
                     for ek, form, word in (("NpInt", "F_INT", "int"), ("NpFloat", "F_FLOAT", "float"), ("NpComplex", "F_COMPLEX", "complex")):
                         try:
@@ -689,7 +715,7 @@ def c15_4(rep, ix, M):
                         w = included(L.of_pieces(tail), L.of_rule(form))
                         shown = "".join(x if t == "lit" else "<%s>" % x for t, x in tail)
                         rep.check(w is None, R, ix.site(f, rows[0]), "%s elements of a tdm array render as `%s`, included in %s" % (ek, shown, form), "e.g. %r" % w, key="tdm|elem|" + ek)
-            rep.check(okr or True, R, ix.site(f, rows[0]) if rows else ix.site(f), "each row starts on a new line with four spaces and separates elements by ', '", key="tdm|rows")
+            rep.check(okr, R, ix.site(f, apps[0]), "each row starts on a new line with four spaces and separates elements by ', '", key="tdm|rows")
 
 
 def tdm_dispatch(rep, R, ix, f, lp, v):
